@@ -29,9 +29,34 @@ FORMS = {
     "import_then_from": ("import pkg\nfrom pkg import sub\nimport pkg.sub.leaf as l", ["pkg.sub is sub", "l is sub.leaf"]),
 }
 
+# several modules in one statement: every ordered pair of single-alias items -- in particular two
+# items that bind the same name (`import pkg.sub.leaf, pkg.sub.sib` binds pkg twice; an alias that
+# re-uses the name bound by the other item)
+ITEMS = ["top", "top as t", "pkg", "pkg.sub", "pkg.sub as s", "pkg.sub.leaf", "pkg.sub.leaf as l", "pkg.sub.sib", "pkg.other as top", "pkg.sub as pkg"]
+_ATTRS = ("sub", "leaf", "sib", "other", "pv", "sv", "lv", "bv", "tv", "ov")
 
-def programs():
-    for fn, (stmt, obs) in FORMS.items():
+
+def _pair_forms():
+    out = {}
+    for x, a in enumerate(ITEMS):
+        for y, b in enumerate(ITEMS):
+            if x == y:
+                continue
+            stmt = "import %s, %s" % (a, b)
+            obs = []
+            for n in bound_names(stmt):
+                obs.append("val(%s)" % n)
+                obs.append("sorted(k for k in vars(%s) if k in %r)" % (n, _ATTRS))
+            out["pair_%d_%d" % (x, y)] = (stmt, obs)
+    out["triple_same_top"] = ("import pkg.sub.leaf, top, pkg.sub.sib, pkg.other", ["val(pkg)", "val(top)", "sorted(k for k in vars(pkg.sub) if k in %r)" % (_ATTRS,), "sorted(k for k in vars(pkg) if k in %r)" % (_ATTRS,)])
+    return out
+
+
+def programs(pairs=True):
+    forms = dict(FORMS)
+    if pairs:
+        forms.update(_pair_forms())
+    for fn, (stmt, obs) in forms.items():
         lines = stmt.split("\n")
         logs = ["log(%r, %s)" % (o, o) for o in obs]
         bound = bound_names(stmt)
